@@ -180,14 +180,20 @@ def wl_counting(ctx, rng, case):
         f = cls(width=w, depth=d, **extra, **bl.kw_hash(hf))
         mk2 = lambda: cls(width=w, depth=d, **extra, **bl.kw_hash(hf))
         reload = lambda o: cls.frombytes(bytes(o), **extra, **bl.kw_hash(hf))
+    # some histories use amounts around the 32-bit cell limits: cells pin there, the element total keeps counting
+    big = rng.random() < 0.12
+    if big:
+        ctx.count("counting_histories_with_amounts_at_the_cell_limits")
     out = Counter()
     removes = 0
     eaten = 0  # counting Bloom only: amount taken out by requests larger than what the filter held for the key
     for step in range(rng.randint(3, 30)):
         r = rng.random()
         kk = rng.choice(keys)
+        if big and kind == "CountingBloomFilter" and r >= 0.6:
+            continue  # with cells at the limit only additions keep the simple meaning for the counting Bloom filter
         if r < 0.6 or kind == "HeavyHitters" and r < 0.85:
-            n = rng.choice([1, 1, 2, 5, 40])
+            n = rng.choice([1, 1, 2, 5, 40]) if not big else rng.choice([1, 3 * 10**8, 2**31 - 1, 2**31, 2**32 - 1, 2**32 + 5, 7])
             f.add(kk, n)
             out[kk] += n
             case.op("add", kk, n)
